@@ -101,14 +101,14 @@ var checks = map[string]*checkDef{
 	"C15": {
 		property: "C15", level: "exploration",
 		plan: []planItem{
-			{workload: "C15", variant: "plain", quick: 4000, thorough: 500000},
-			{workload: "C15C", variant: "instrw", quick: 2000, thorough: 100000},
-			{workload: "C15", variant: "purego", quick: 480, thorough: 15000},
-			{workload: "C15", variant: "noavx2", quick: 480, thorough: 15000},
-			{workload: "C15", variant: "force32bit", quick: 320, thorough: 8000},
+			{workload: "C15", variant: "plain", quick: 2400, thorough: 200000},
+			{workload: "C15C", variant: "instrw", quick: 1200, thorough: 60000},
+			{workload: "C15", variant: "purego", quick: 320, thorough: 15000},
+			{workload: "C15", variant: "noavx2", quick: 320, thorough: 15000},
+			{workload: "C15", variant: "force32bit", quick: 240, thorough: 8000},
 		},
 		assume: []string{
-			"scope: the protocol layer (framing, separator octets, nonce and challenge derivation in both formats, canonicity and key-validation rules, proof_to_hash) is re-implemented from RFC 9381 with crypto/sha512 and math/big and validated against the RFC's vectors on every start; encode_to_curve (h2c suite) and curve point arithmetic are delegated to the library inside the model, so exactness of Elligator and of the group law is not decided here (C14 / C03 are not applicable to this technique)",
+			"the reference model is fully independent of the library: RFC 9381 protocol layer, RFC 8032 point arithmetic / encoding / decoding and the RFC 9380 suite edwards25519_XMD:SHA-512_ELL2_NU_ (expand_message_xmd, hash_to_field, Elligator 2, rational map, cofactor clearing) over crypto/sha512 and math/big, validated against the RFC 9381 vectors (incl. the intermediate value H) on every start",
 			"dropping only the public-key canonicity check is undetectable by any black-box run: every decodable non-canonical encoding is a small-order point (still rejected by validate_key) or a point of unknown discrete log",
 		},
 	},
